@@ -591,7 +591,7 @@ def m_array_index(eng, st, c, args, dest_tid, t):
 # --------------------------------------------------------------------------------------------------
 # fmt: write!/format! become recorded output pieces (E7)
 
-from .sym import V  # noqa: E402
+from .sym import V, norm_path  # noqa: E402
 from . import fmtdecode  # noqa: E402
 
 
@@ -729,10 +729,13 @@ def install_iters(eng):
               "<core::iter::Enumerate<I> as core::iter::Iterator>::next", "<core::iter::Take<I> as core::iter::Iterator>::next"):
         M[p] = m_iter_next
     M["core::iter::Iterator::filter"] = m_iter_filter
+    M["core::iter::Iterator::for_each"] = m_iter_for_each
+    M["core::iter::Iterator::try_for_each"] = m_iter_try_for_each
     M["<core::iter::Filter<I, P> as core::iter::Iterator>::next"] = m_filter_next
     M["core::iter::adapters::filter::<impl core::iter::Iterator for core::iter::Filter<I, P>>::next"] = m_filter_next
     for nm, m in (("find", m_iter_find), ("position", m_iter_position), ("any", m_iter_any), ("all", m_iter_all)):
         M["<core::slice::Iter<'a, T> as core::iter::Iterator>::" + nm] = m
+        M["<core::iter::Rev<I> as core::iter::Iterator>::" + nm] = m
         M["core::iter::Iterator::" + nm] = m
 
 
@@ -761,8 +764,56 @@ def m_iter_take(eng, st, c, args, dest_tid, t):
     return NotImplemented
 
 
+class _Ended:
+    """item placeholder: the state ended (panic / limit) inside a closure while the iterator was advanced"""
+    def __repr__(self):
+        return "ENDED"
+
+
+ENDED = _Ended()
+
+
 def _advance(eng, st, it, item_tid):
-    """-> list of (state, new iterator, item or None)"""
+    """-> list of (state, new iterator, item | None | ENDED)"""
+    if it.ikind == "filter":
+        out = []
+        work = [(st, it.a, 0)]
+        while work:
+            s0, inner, k = work.pop()
+            if k > 4096 or not isinstance(inner, IterV):
+                s0.end = "limit"
+                eng.event(s0, "limit", "filter over an iterator of unknown length")
+                out.append((s0, it, ENDED))
+                continue
+            for s1, ni, item in _advance(eng, s0, inner, None):
+                if item is ENDED:
+                    out.append((s1, it, ENDED))
+                    continue
+                if item is None:
+                    out.append((s1, IterV("filter", a=ni, b=it.b), None))
+                    continue
+                eng.ncell += 1
+                key = ("cell", eng.ncell, "iter-item")
+                s1.store[key] = item
+                returned, ended = _pred_call(eng, s1, it.b, Ref(key=key))
+                if returned is None:
+                    s1.end = "limit"
+                    eng.event(s1, "unmodelled", "filter predicate without a body")
+                    out.append((s1, it, ENDED))
+                    continue
+                out.extend((s2, it, ENDED) for s2 in ended)
+                for s2, v in returned:
+                    if not isinstance(v, Bool):
+                        s2.end = "limit"
+                        eng.event(s2, "unmodelled", "filter predicate did not return a bool value")
+                        out.append((s2, it, ENDED))
+                        continue
+                    ts, fs = eng.branch(s2, v.c)
+                    for s3 in ts:
+                        out.append((s3, IterV("filter", a=ni, b=it.b), item))
+                    for s3 in fs:
+                        work.append((s3, ni, k + 1))
+        return out
     if it.ikind == "slice":
         if it.n < it.b:
             arr = _arr_of(eng, st, it.a)
@@ -771,11 +822,13 @@ def _advance(eng, st, it, item_tid):
     if it.ikind == "zip":
         out = []
         for s1, na, ia in _advance(eng, st, it.a, None):
-            if ia is None:
-                out.append((s1, IterV("zip", a=na, b=it.b), None))
+            if ia is None or ia is ENDED:
+                out.append((s1, IterV("zip", a=na, b=it.b), ia))
                 continue
             for s2, nb, ib in _advance(eng, s1, it.b, None):
-                if ib is None:
+                if ib is ENDED:
+                    out.append((s2, IterV("zip", a=na, b=nb), ENDED))
+                elif ib is None:
                     out.append((s2, IterV("zip", a=na, b=nb), None))
                 else:
                     out.append((s2, IterV("zip", a=na, b=nb), Struct(None, [ia, ib])))
@@ -783,8 +836,8 @@ def _advance(eng, st, it, item_tid):
     if it.ikind == "enum":
         out = []
         for s1, na, ia in _advance(eng, st, it.a, None):
-            if ia is None:
-                out.append((s1, IterV("enum", a=na, n=it.n), None))
+            if ia is None or ia is ENDED:
+                out.append((s1, IterV("enum", a=na, n=it.n), ia))
             else:
                 out.append((s1, IterV("enum", a=na, n=it.n + 1), Struct(None, [Int(Lin.const(it.n), eng.find_tid("usize")), ia])))
         return out
@@ -801,6 +854,50 @@ def _advance(eng, st, it, item_tid):
     return [(st, it, None)]
 
 
+def _impl_fn(eng, self_path, name):
+    """the crate's own implementation `name` (next / next_back) for the type `self_path`, if it has a MIR body"""
+    idx = getattr(eng, "_impl_index", None)
+    if idx is None:
+        idx = eng._impl_index = {}
+        for f in eng.F.fns:
+            im = f.get("impl") if f else None
+            if f and im and "blocks" in f and f.get("local"):
+                idx.setdefault((norm_path(im.get("self") or ""), f.get("name")), []).append(f)
+    c = idx.get((norm_path(self_path or ""), name)) or []
+    return c[0] if len(c) == 1 else None
+
+
+def _pull(eng, st, it, opt_tid):
+    """One `next()` of an iterator value: a constant-length IterV, `Rev` of one of the crate's own double-ended iterators, or one of
+    the crate's own iterators (their next / next_back bodies are interpreted).  -> (list of (state, new iterator value, item | None),
+    ended states) or None when the iterator is of no known kind."""
+    if isinstance(it, IterV):
+        res = _advance(eng, st, it, None)
+        return [(s1, ni, item) for s1, ni, item in res if item is not ENDED], [s1 for s1, ni, item in res if item is ENDED]
+    if isinstance(it, Struct) and it.tid is not None:
+        ty = eng.types[it.tid]
+        path = norm_path(ty.get("path") or "")
+        rev = path.endswith("iter::Rev") or path.endswith("rev::Rev")
+        inner = it.fs[0] if rev and len(it.fs) == 1 else it
+        ity = eng.types[inner.tid] if isinstance(inner, Struct) and inner.tid is not None else None
+        fn = _impl_fn(eng, ity.get("path"), "next_back" if rev else "next") if ity else None
+        if fn is None:
+            return None
+        eng.ncell += 1
+        key = ("cell", eng.ncell, "iter-state")
+        st.store[key] = inner
+        returned, ended = eng.subcall(st, fn, [Ref(key=key)])
+        out = []
+        for s1, ov in returned:
+            if not isinstance(ov, Enum):
+                return None
+            ni = s1.store.get(key)
+            nv = Struct(it.tid, [ni]) if rev else ni
+            out.append((s1, nv, ov.fs[0] if ov.vi == 1 else None))
+        return out, ended
+    return None
+
+
 def _iter_search(eng, st, c, args, dest_tid, t, mode):
     """Iterator::find / position / any / all over a constant-length iterator with a closure that has a MIR body: the elements are
     visited in order and the closure is interpreted on each (one path per outcome), exactly as the library loop does."""
@@ -809,7 +906,7 @@ def _iter_search(eng, st, c, args, dest_tid, t, mode):
         return NotImplemented
     it = eng.deref(st, ref)
     fn = eng.closure_fn(clo)
-    if not isinstance(it, IterV) or fn is None:
+    if fn is None or not isinstance(it, (IterV, Struct)):
         return NotImplemented
     eng.ncell += 1
     ckey = ("cell", eng.ncell, "closure-env")
@@ -820,7 +917,16 @@ def _iter_search(eng, st, c, args, dest_tid, t, mode):
     btid = eng.find_tid("bool")
     while work:
         s0, it0, k = work.pop()
-        for s1, nit, item in _advance(eng, s0, it0, None):
+        if k > 4096:
+            s0.end = "limit"
+            eng.event(s0, "limit", "search over an unbounded iterator")
+            out.append((s0, None))
+            continue
+        pl = _pull(eng, s0, it0, None)
+        if pl is None:
+            return NotImplemented
+        out.extend((s2, None) for s2 in pl[1])
+        for s1, nit, item in pl[0]:
             if item is None:
                 eng.write_key(s1, ref.key, ref.proj, nit)
                 if mode in ("find", "position"):
@@ -896,6 +1002,8 @@ def m_filter_next(eng, st, c, args, dest_tid, t):
     it = eng.deref(st, ref)
     if not (isinstance(it, IterV) and it.ikind == "filter"):
         return NotImplemented
+    if isinstance(it.a, IterV):
+        return m_iter_next(eng, st, c, args, dest_tid, t)
     out = []
     work = [(st, it.a, 0)]
     while work:
@@ -906,7 +1014,9 @@ def m_filter_next(eng, st, c, args, dest_tid, t):
             out.append((s0, None))
             continue
         if isinstance(inner, IterV):
-            pulled = [(s1, ni, item) for s1, ni, item in _advance(eng, s0, inner, None)]
+            res_ = _advance(eng, s0, inner, None)
+            out.extend((s1, None) for s1, ni, item in res_ if item is ENDED)
+            pulled = [(s1, ni, item) for s1, ni, item in res_ if item is not ENDED]
         else:
             eng.ncell += 1
             ikey = ("cell", eng.ncell, "filter-inner")
@@ -951,6 +1061,77 @@ def m_filter_next(eng, st, c, args, dest_tid, t):
     return out
 
 
+def _for_each(eng, st, c, args, dest_tid, t, fallible):
+    """Iterator::for_each / try_for_each with a closure that has a MIR body, over an iterator _pull understands: the closure is
+    interpreted on each element in order; try_for_each stops at the first Err / None it returns."""
+    it, clo = args[0], args[1]
+    ref = None
+    if isinstance(it, Ref) and it.key is not None:
+        ref = it
+        it = eng.deref(st, ref)
+    fn = eng.closure_fn(clo)
+    if fn is None or not isinstance(it, (IterV, Struct)):
+        return NotImplemented
+    eng.ncell += 1
+    ckey = ("cell", eng.ncell, "closure-env")
+    st.store[ckey] = clo
+    out = []
+    work = [(st, it, 0)]
+    while work:
+        s0, it0, k = work.pop()
+        if k > 4096:
+            s0.end = "limit"
+            eng.event(s0, "limit", "for_each over an unbounded iterator")
+            out.append((s0, None))
+            continue
+        pl = _pull(eng, s0, it0, None)
+        if pl is None:
+            return NotImplemented
+        out.extend((s2, None) for s2 in pl[1])
+        for s1, nit, item in pl[0]:
+            if item is None:
+                if ref is not None:
+                    eng.write_key(s1, ref.key, ref.proj, nit)
+                if fallible:
+                    ty = eng.types[dest_tid]
+                    names = [v_["name"] for v_ in ty.get("variants", [])]
+                    cont = "Ok" if "Ok" in names else ("Some" if "Some" in names else None)
+                    if cont is None:
+                        return NotImplemented
+                    vi = names.index(cont)
+                    unit = Struct(ty["variants"][vi]["ftys"][0], []) if ty["variants"][vi].get("ftys") else None
+                    out.append((s1, Enum(dest_tid, vi, (unit,) if unit is not None else ())))
+                else:
+                    out.append((s1, Struct(dest_tid, [])))
+                continue
+            returned, ended = eng.subcall(s1, fn, [Ref(key=ckey), item])
+            out.extend((s2, None) for s2 in ended)
+            for s2, v in returned:
+                if not fallible:
+                    work.append((s2, nit, k + 1))
+                    continue
+                if isinstance(v, SymEnum):
+                    v = s2.enum_ref.get(v.name, v)
+                if not isinstance(v, Enum):
+                    return NotImplemented
+                nm = eng.types[v.tid]["variants"][v.vi]["name"]
+                if nm in ("Ok", "Some"):
+                    work.append((s2, nit, k + 1))
+                else:
+                    if ref is not None:
+                        eng.write_key(s2, ref.key, ref.proj, nit)
+                    out.append((s2, v))
+    return out
+
+
+def m_iter_for_each(eng, st, c, args, dest_tid, t):
+    return _for_each(eng, st, c, args, dest_tid, t, False)
+
+
+def m_iter_try_for_each(eng, st, c, args, dest_tid, t):
+    return _for_each(eng, st, c, args, dest_tid, t, True)
+
+
 def m_iter_find(eng, st, c, args, dest_tid, t):
     return _iter_search(eng, st, c, args, dest_tid, t, "find")
 
@@ -976,6 +1157,9 @@ def m_iter_next(eng, st, c, args, dest_tid, t):
         return NotImplemented
     out = []
     for s2, nit, item in _advance(eng, st, it, None):
+        if item is ENDED:
+            out.append((s2, None))
+            continue
         eng.write_key(s2, ref.key, ref.proj, nit)
         out.append((s2, eng.mk_option(dest_tid, item)))
     return out
